@@ -31,7 +31,7 @@ PROFILES = {
     "types": dict(p_multitype=0.45, p_box=0.3, w_struct=7, w_enum=2, w_alias=2, p_include=0.2, p_keywords=0.35,
                   p_position=0.3, w_extern=1, nrules=(3, 8)),
     "unicode": dict(p_unicode=0.7, p_insens=0.2, w_char=3, w_string=3, p_ccheck=0.3, w_extern=1, p_position=0.4),
-    "memo": dict(p_memo=0.5, p_lookahead=0.2, nrules=(3, 7), p_check=0.3, p_ccheck=0.2, w_extern=1, w_char=2),
+    "memo": dict(p_memo=0.5, p_lookahead=0.2, nrules=(3, 7), p_check=0.3, p_ccheck=0.2, w_extern=2, w_char=2),
     "memofail": dict(p_memo=1.0, p_probe=0.7, p_lookahead=0.15, w_extern=1, nrules=(3, 6), p_check=0.35, p_ccheck=0.2, w_char=2),
     "dupfields": dict(nrules=(2, 4), depth=4, small_fieldpool=3, p_multitype=0.85, w_struct=8, w_string=3, w_unit=0, w_alias=0,
                       w_enum=0, w_char=1, p_include=0.15, p_lookahead=0.03, p_noskip=0.1, dense_fields=True),
